@@ -32,6 +32,10 @@ type cliCase struct {
 	// Existing: the -o path already exists and is longer than the output: 1 = a file of the same
 	// container (plain/gz/xz) holding a longer content, 2 = plain bytes whatever the extension
 	Existing int `json:"existing,omitempty"`
+	// NameStyle: base name of the output file in lower (0), upper (1) or mixed (2) case
+	NameStyle int `json:"name_style,omitempty"`
+	// Reread: the output file is given to a second goalign reformat fasta -i <file>
+	Reread bool `json:"reread,omitempty"`
 }
 
 var cliOut = []string{"fasta", "phylip", "nexus", "clustal"}
@@ -60,7 +64,13 @@ func genCLI(t *rapid.T) cliCase {
 	}
 	c.Long = rapid.Bool().Draw(t, "long")
 	c.InVia = rapid.SampledFrom([]string{"file", "file", "stdin", ".gz", ".xz"}).Draw(t, "invia")
-	c.OutVia = rapid.SampledFrom([]string{"stdout", "stdout", "file", ".gz", ".xz"}).Draw(t, "outvia")
+	c.OutVia = rapid.SampledFrom([]string{"stdout", "stdout", "stdout", "file", "file", ".gz", ".gz", ".xz", ".xz", "lookalike"}).Draw(t, "outvia")
+	if c.OutVia == "lookalike" {
+		c.OutVia = rapid.SampledFrom(lookAlikes).Draw(t, "lookalike")
+	}
+	c.NameStyle = rapid.IntRange(0, 2).Draw(t, "namestyle")
+	// the output file is read again by goalign itself (a pipeline through files)
+	c.Reread = c.OutVia != "stdout" && rapid.IntRange(0, 2).Draw(t, "reread") == 0
 	if c.OutVia != "stdout" {
 		c.Existing = rapid.SampledFrom([]int{0, 0, 0, 0, 1, 2}).Draw(t, "existing")
 	}
@@ -87,6 +97,14 @@ func genCLI(t *rapid.T) cliCase {
 var cliSeq int64
 var cliDir string
 
+// outKind: class label of the output destination
+func outKind(via string) string {
+	if via == "stdout" || via == "file" || container(via) != "" {
+		return via
+	}
+	return "look-alike extension"
+}
+
 func has(list []string, s string) bool {
 	for _, x := range list {
 		if x == s {
@@ -98,7 +116,7 @@ func has(list []string, s string) bool {
 
 func checkCLI(c cliCase) (o pbt.Outcome, err error) {
 	if !has(cliOut, c.Out.Format) || !has(cliIn, c.In.Format) || !c.In.valid() || !c.Out.valid() || len(c.Alis) == 0 ||
-		!has([]string{"file", "stdin", ".gz", ".xz"}, c.InVia) || !has([]string{"stdout", "file", ".gz", ".xz"}, c.OutVia) ||
+		!has([]string{"file", "stdin", ".gz", ".xz"}, c.InVia) || !(c.OutVia == "stdout" || c.OutVia == "file" || (c.OutVia != "" && validExt(c.OutVia))) || (c.Reread && c.OutVia == "stdout") ||
 		(c.Auto && (c.In.Format == "stockholm" || c.In.Strict)) || c.Existing < 0 || c.Existing > 2 || (c.Existing != 0 && c.OutVia == "stdout") {
 		o.Skip = true
 		return o, nil
@@ -197,7 +215,7 @@ func checkCLI(c cliCase) (o pbt.Outcome, err error) {
 		if c.OutVia != "file" {
 			outExt = c.OutVia
 		}
-		outPath = filepath.Join(cliDir, fmt.Sprintf("out%d.%s%s", n, c.Out.Format, outExt))
+		outPath = filepath.Join(cliDir, fileName("out", n, c.Out.Format, outExt, c.NameStyle))
 		defer os.Remove(outPath)
 		args = append(args, flag("-o", "--output"), outPath)
 		// an output file that already exists and is longer than what will be written
@@ -232,14 +250,17 @@ func checkCLI(c cliCase) (o pbt.Outcome, err error) {
 		if e != nil {
 			return o, fmt.Errorf("goalign %s: exit status 0 but the output file is missing: %v", show, e)
 		}
-		back, e := decompress(raw, outExt)
+		back, ambiguous, e := decompress(raw, outExt)
+		if ambiguous {
+			o.Ambiguous++
+		}
 		if e != nil {
 			return o, fmt.Errorf("goalign %s: the output file (which existed before with %d bytes; -1 = did not exist) is not readable by an independent %s reader: %v (%d bytes on disk)", show, existingSize, outExt, e, len(raw))
 		}
 		out = string(back)
 		if c.Existing != 0 {
 			if existingSize > len(raw) {
-				o.Class("-o names an existing longer file (%s, kind %d)", c.OutVia, c.Existing)
+				o.Class("-o names an existing longer file (%s, kind %d)", outKind(c.OutVia), c.Existing)
 			} else {
 				o.Class("-o names an existing file that is not longer")
 			}
@@ -278,6 +299,38 @@ func checkCLI(c cliCase) (o pbt.Outcome, err error) {
 			return o, fmt.Errorf("goalign %s: independent reading of the FASTA output\n got : %s\n want: %s", show, gen.Show(rows), gen.Show(want[0].Rows))
 		}
 	}
+	if c.Reread && outPath != "" {
+		// the file goalign wrote under this name is read by goalign under this name
+		args2 := []string{"reformat", "fasta", flag("-i", "--align"), outPath}
+		switch c.Out.Format {
+		case "phylip":
+			args2 = append(args2, flag("-p", "--phylip"))
+		case "nexus":
+			args2 = append(args2, flag("-x", "--nexus"))
+		case "clustal":
+			args2 = append(args2, flag("-u", "--clustal"))
+		}
+		if c.Out.Strict {
+			args2 = append(args2, "--input-strict")
+		}
+		r2 := cli.Run("", args2...)
+		show2 := strings.Join(args2, " ")
+		if r2.TimedOut {
+			o.Skip = true
+			return o, nil
+		}
+		if r2.Exit != 0 {
+			return o, fmt.Errorf("goalign %s, then goalign %s: the second command fails on the file the first one wrote: exit status %d, stderr %q", show, show2, r2.Exit, r2.Stderr)
+		}
+		rows, e := cli.ParseFasta(r2.Stdout)
+		if e != nil {
+			return o, fmt.Errorf("goalign %s, then goalign %s: unreadable FASTA output: %v", show, show2, e)
+		}
+		if !gen.SameRows(rows, want[0].Rows) {
+			return o, fmt.Errorf("goalign %s, then goalign %s: the file is not read back to the alignment written\n got : %s\n want: %s", show, show2, excerpt(gen.Show(rows)), excerpt(gen.Show(want[0].Rows)))
+		}
+		o.Class("output file read again by goalign (%s)", map[bool]string{true: "documented extension or none", false: "look-alike extension"}[container(outExt) != ""])
+	}
 	x := c.In
 	if len(c.InOpts) > 0 {
 		x.OneLine, x.NoBlock = c.InOpts[0].OneLine, c.InOpts[0].NoBlock
@@ -287,11 +340,11 @@ func checkCLI(c cliCase) (o pbt.Outcome, err error) {
 	ntIn := classify(&o, "in:", x, first)
 	ntOut := classify(&o, "out:", c.Out, first)
 	o.Class("input %s, %s", c.InVia, textClass(len(text)))
-	o.Class("output %s, %s", c.OutVia, textClass(len(out)))
+	o.Class("output %s, %s", outKind(c.OutVia), textClass(len(out)))
 	if len(c.Alis) > 1 {
 		o.Class("stream input %s%s, %s", map[bool]string{true: "--auto-detect", false: "-p"}[c.Auto], map[bool]string{true: " from a file", false: " from stdin"}[c.InVia != "stdin"], textClass(len(text)))
 		if c.Out.Format == "phylip" {
-			o.Class("stream output via %s, %s", c.OutVia, textClass(len(out)))
+			o.Class("stream output via %s, %s", outKind(c.OutVia), textClass(len(out)))
 		}
 	}
 	in := c.In.Format
@@ -300,7 +353,7 @@ func checkCLI(c cliCase) (o pbt.Outcome, err error) {
 	}
 	o.Class("%s -> %s", in, c.Out.Format)
 	o.Class("input via %s", c.InVia)
-	o.Class("output via %s", c.OutVia)
+	o.Class("output via %s", outKind(c.OutVia))
 	o.Class("alignments in the input: %d", len(c.Alis))
 	if c.In.Strict {
 		o.Class("--input-strict")
